@@ -77,6 +77,21 @@ Payloads(s) == IF s = <<>> THEN <<>>
                ELSE <<Head(s)>> \o Payloads(Tail(s))
 HasEnd(s) == \E i \in 1..Len(s) : s[i] = ENDV
 
+(* accumulate_all with Fold / FoldFrom / Reduce: items are keyed by v[1] % 2, the accumulated
+   value is order-sensitive; the result map is reported as <<key, acc>> in key order *)
+AccStep(a, x) == (a * 3 + x) % 10007
+RECURSIVE AccFold(_, _)
+AccFold(a, xs) == IF xs = <<>> THEN a ELSE AccFold(AccStep(a, Head(xs)[1]), Tail(xs))
+AccOf(kind, xs) == CASE kind = "fold" -> AccFold(7, xs)
+                     [] kind = "fold_from" -> AccFold(Head(xs)[1] + 1000, Tail(xs))
+                     [] kind = "reduce" -> AccFold(Head(xs)[1], Tail(xs))
+AccOut(kind, items) ==
+    LET g0 == SelectSeq(items, LAMBDA v : v[1] % 2 = 0)
+        g1 == SelectSeq(items, LAMBDA v : v[1] % 2 = 1)
+    IN (IF g0 = <<>> THEN <<>> ELSE << <<0, AccOf(kind, g0)>> >>)
+       \o (IF g1 = <<>> THEN <<>> ELSE << <<1, AccOf(kind, g1)>> >>)
+ACCS == {"fold", "fold_from", "reduce"}
+
 -----------------------------------------------------------------------------
 (* Reference layer: the iterator adapter on the payloads.
    A node is [k |-> kind, f |-> closure name or leaf flavour, n |-> integer argument or
@@ -113,12 +128,13 @@ RefN(nd, scr) ==
          \* consuming futures (root only)
          [] k \in {"collect", "for_each", "send_push", "send_sink"} -> r1
          [] k = "next" -> SubSeq(r1, 1, Min(1, Len(r1)))
+         [] k \in ACCS -> AccOut(k, r1)
 
 \* FusedPull is implemented for the node's type (given these upstreams)
 RECURSIVE FusedN(_, _)
 FusedN(nd, scr) ==
     LET k == nd.k IN
-    CASE k = "src" -> nd.f # "poll_fn" /\ ~HasEnd(scr[nd.n])
+    CASE k = "src" -> nd.f \notin {"poll_fn", "from_fn"} /\ ~HasEnd(scr[nd.n])
       [] k \in {"map", "filter", "filter_map", "filter_map_async", "inspect", "enumerate", "skip",
                 "skip_while", "flat_map", "flatten", "flat_map_stream", "flatten_stream"} ->
              FusedN(nd.c[1], scr)
@@ -128,19 +144,21 @@ FusedN(nd, scr) ==
       [] OTHER -> FALSE          \* take_while, zip, compat, futures
 
 \* the tree type-checks: chain needs a fused first input, zip_longest two fused inputs;
-\* non-fused scripts only for the plain "src" flavour; flavour "iter" cannot pend
+\* non-fused scripts only for the plain "src" flavour; flavours iter / from_fn / once cannot pend
 RECURSIVE ValidN(_, _)
 ValidN(nd, scr) ==
     LET k == nd.k IN
     CASE k = "src" -> /\ (HasEnd(scr[nd.n]) => nd.f = "src")
-                      /\ (nd.f = "iter" => \A i \in 1..Len(scr[nd.n]) : scr[nd.n][i] # PEND)
+                      /\ (nd.f \in {"iter", "from_fn", "once"} => \A i \in 1..Len(scr[nd.n]) : scr[nd.n][i] # PEND)
+                      /\ (nd.f = "once" => Len(scr[nd.n]) = 1)      \* pull::once(x): script <<x>>, not observable
+                      /\ (nd.f = "empty" => scr[nd.n] = <<>>)       \* pull::empty()
       [] k = "chain" -> FusedN(nd.c[1], scr) /\ ValidN(nd.c[1], scr) /\ ValidN(nd.c[2], scr)
       [] k = "zip_longest" -> /\ FusedN(nd.c[1], scr) /\ FusedN(nd.c[2], scr)
                               /\ ValidN(nd.c[1], scr) /\ ValidN(nd.c[2], scr)
       [] k \in {"zip", "cross_singleton"} -> ValidN(nd.c[1], scr) /\ ValidN(nd.c[2], scr)
       [] OTHER -> ValidN(nd.c[1], scr)
 
-IsFuture(nd) == nd.k \in {"collect", "for_each", "send_push", "send_sink", "next"}
+IsFuture(nd) == nd.k \in {"collect", "for_each", "send_push", "send_sink", "next"} \cup ACCS
 
 RECURSIVE HasKind(_, _)
 HasKind(nd, k) == nd.k = k \/ \E i \in 1..Len(nd.c) : HasKind(nd.c[i], k)
